@@ -283,6 +283,18 @@ func (r *Report) finish(evidenceDir, knownPath, replayDir string, want map[strin
 				fmt.Printf("VIOLATION property=%s replay=%s obligation=%s answer=undecided(%s) no-failing-input-found\n", prop, path, s.Name, strings.ReplaceAll(fr.Err.Error(), "\n", " "))
 			}
 		}
+		// contracts that match no function any more (the function was renamed, removed, or its receiver changed): what
+		// they promised is no longer checked for anything
+		for _, k := range r.Stale {
+			c := r.Prog.Contracts[k]
+			if c == nil || !hasProp(r.Prog.contractPropsFull(c), map[string]bool{prop: true}) {
+				continue
+			}
+			violations++
+			s := &OblSummary{Name: k + "/engine", Kind: "engine", Func: k, Desc: "STALE-CONTRACT: the contract matches no function of the current tree", Answer: "undecided"}
+			path := r.writeReplay(replayDir, prop, s)
+			fmt.Printf("VIOLATION property=%s replay=%s obligation=%s answer=undecided(STALE-CONTRACT: the contract of %s matches no function) no-failing-input-found\n", prop, path, s.Name, k)
+		}
 		nobl := 0
 		for _, s := range mine {
 			if s.Kind != "cover" {
